@@ -29,7 +29,15 @@ pub fn profile() -> GenCfg {
 
 pub fn run(case_seed: u64, acc: &mut Acc) {
     let mut r = Prng::new(case_seed);
-    let cfg = profile();
+    let mut cfg = profile();
+    if r.chance(250, 1000) {
+        // devices that answer Z / X now and then, and more declarations: error items (a virtual
+        // signal that cannot be evaluated, a Z read) occur in the middle of the program and the
+        // rows that follow them must still be the prescribed ones
+        cfg.value_mode = 1;
+        cfg.mixed_rates = (25, 25, 100);
+        cfg.n_declares = (0, 2);
+    }
     let case = gen::generate(&mut r, &cfg);
     check_case(&case, case_seed, "gen", acc);
 }
@@ -89,7 +97,7 @@ pub fn exhaustive(tier: &str, acc: &mut Acc) -> Value {
         layout: vec![1],
         values: ValueFn::Small { salt: 7, modulus: 3 },
         faults: vec![],
-        override_write: true,
+        override_write: true, rebuild_signals: false,
     };
     let header = vec!["A".to_string(), "Q".to_string()];
     let bounds: Vec<Expr> = vec![
@@ -286,7 +294,7 @@ pub fn enum_case(index: u64, thorough: bool) -> Case {
             Sig { name: "A".into(), bits: 8, kind: SigKind::In(InVal::V(0)) },
             Sig { name: "Q".into(), bits: 64, kind: SigKind::Out },
         ],
-        script: Script { layout: vec![1], values: ValueFn::Small { salt: 7, modulus: 3 }, faults: vec![], override_write: index % 2 == 0 },
+        script: Script { layout: vec![1], values: ValueFn::Small { salt: 7, modulus: 3 }, faults: vec![], override_write: index % 2 == 0, rebuild_signals: false },
         layout_opts: crate::pp::Layout::plain(),
         rng_seed: 1,
     }
